@@ -58,12 +58,17 @@ func newChangeProfile(q Qualifier, rule rule) (Rule, error) {
 }
 
 func newChangeProfileFromLog(log map[string]string) Rule {
+	// A change_profile record names the profile in its name field
+	target := log["target"]
+	if target == "" {
+		target = log["name"]
+	}
 	return &ChangeProfile{
 		Base:        newBaseFromLog(log),
 		Qualifier:   newQualifierFromLog(log),
 		ExecMode:    log["mode"],
 		Exec:        log["exec"],
-		ProfileName: log["target"],
+		ProfileName: target,
 	}
 }
 
